@@ -188,3 +188,15 @@ Example C09_kind_nonvacuous :
     /\ kf_cancels R = false /\ kf_exposes_empty R = false /\ kf_exposes_colon R = false /\ kf_abs_dslash R = false
     /\ to_text (normalize 63 R) = txt "b/c" /\ path_kind R = PRelative.
 Proof. eexists. split; [vm_compute; reflexivity|]. repeat split. Qed.
+
+(* the two carve-outs of C09_commute are exact on a small scope (computed in Proofs/CommuteProofs.v): of the
+   656 well-formed relative-path references with at most four segments over {"", ".", "..", "a", "b:c"}, or
+   "./b:c/../.." and at most two more, those in one of the two shapes fail against one of three bases, all
+   others commute against all three *)
+Example C09_carveouts_exact_small_scope :
+  forallb (fun R => if kf_cancels R || kf_dot_eaten R
+                    then existsb (fun B => negb (commutes_b R B)) scope_bases
+                    else forallb (fun B => commutes_b R B) scope_bases) scope_refs = true
+  /\ existsb kf_cancels scope_refs = true /\ existsb kf_dot_eaten scope_refs = true
+  /\ (600 <=? N.of_nat (length scope_refs)) = true.
+Proof. exact carveouts_exact_small_scope. Qed.
